@@ -457,6 +457,9 @@ def onObs (t : T) (x : Obs) : T :=
         let t := t.flagIf (a.deadline != some d) .C05 s!"timer {k} fired with deadline {d}, its current deadline is {repr a.deadline}"
         let t := t.flagIf (d > t.now) .C05 s!"timer {k} fired at {t.now}, before its deadline {d}"
         let t := t.flagIf (!a.armed) .C05 s!"timer {k} fired without a fresh arming (fired twice, or after being cancelled)"
+        -- the cause of a timer callback is an arming whose deadline has been reached
+        let t := t.flagIf (d > t.now || !a.armed) .C01
+          s!"timer {k} was called back without a cause: at {t.now}, deadline {d}, {if a.armed then "armed" else "holding no arming"}"
         let t := t.flagIf (a.armed && a.armedInDisp) .C05
           s!"timer {k} fired in the dispatch whose wait ended before its current arming was made: the expiry belongs to an arming that was cancelled"
         let t := match t.lastDeadlineCb with
